@@ -27,7 +27,7 @@ RULE = ("random release tables (1-12 rows, 1-5 distinct times on the model time 
         "time-typed particle variable, header in file or names in configuration, X/Y or lon/lat), discrete and continuous "
         "(frequency 1-4 steps), forward and reversed, still water, output every step. Non-trivial: at least two release "
         "events at different steps or rows outside the window or mult != 1; distinct by (mode, direction, step/mult pattern).")
-MANDATORY = ["file_with_XY_and_lonlat", "table_with_17_or_more_rows_several_per_time", "release_after_particles_were_removed", "discrete_forward", "discrete_reversed", "continuous_forward", "continuous_reversed",
+MANDATORY = ["integer_column_beyond_2_to_53", "discrete_release_with_frequency_entry", "file_with_XY_and_lonlat", "table_with_17_or_more_rows_several_per_time", "release_after_particles_were_removed", "discrete_forward", "discrete_reversed", "continuous_forward", "continuous_reversed",
              "row_before_start", "row_at_or_after_stop", "mult_zero", "mult_gt1", "several_rows_per_time", "lonlat_position",
              "names_in_config", "particle_variable_column", "release_hook_events", "time_typed_column_values", "column_with_configured_default"]
 ASSUMPTIONS = ["release times on the model time grid and sorted in simulation order (as the property quantifies)",
@@ -89,6 +89,15 @@ def gen_case(seed: int, idx: int) -> dict[str, Any]:
     cols = ["release_time"] + (["mult"] if use_mult else []) + (["lon", "lat"] if lonlat else ["X", "Y"]) + ["Z"] + [e[0] for e in extras]
     rows = []
     rid = 100
+    bigint = bool(idx % 4 == 1)
+    if bigint:
+        # identifiers beyond 2**53 (not representable as floating point numbers), and no time-typed column besides the release time itself
+        rid = 2**53 + 1 + 2 * idx
+        extras = [e for e in extras if e[1] != "time"]
+        if not any(e[0] == "rid" for e in extras):
+            extras.append(["rid", "int", "instance" if idx % 8 == 1 else "particle"])
+        rel_time_pv = False
+        cols = cols[:cols.index("Z") + 1] + [e[0] for e in extras]
     for s in steps:
         nrow = int(rng.integers(9, 14)) if big else int(rng.choice([1, 1, 2, 3]))
         for _ in range(nrow):
@@ -119,7 +128,7 @@ def gen_case(seed: int, idx: int) -> dict[str, Any]:
             rows.append(row)
     return dict(idx=idx, dt=dt, nsteps=nsteps, reversed=rev, continuous=cont, freq_steps=freq_steps, start=start, stop=stop,
                 columns=cols, rows=rows, header=header, extras=extras, lonlat=lonlat, use_mult=use_mult,
-                release_time_pv=rel_time_pv, imax=imax, jmax=jmax, both=both, big=big)
+                release_time_pv=rel_time_pv, imax=imax, jmax=jmax, both=both, big=big, bigint=bigint)
 
 
 def gen_cases(tier: str, seed: int) -> list[dict[str, Any]]:
@@ -193,10 +202,10 @@ def build_scenario(case: dict[str, Any]) -> dict[str, Any]:
     for name, typ, kind in case["extras"]:
         if kind == "instance":
             st_i[name] = typ
-            out_i[name] = "i4" if typ == "int" else "f8"
+            out_i[name] = ("i8" if case.get("bigint") else "i4") if typ == "int" else "f8"
         else:
             st_p[name] = typ
-            out_p[name] = "i4" if typ == "int" else "f8"
+            out_p[name] = ("i8" if case.get("bigint") else "i4") if typ == "int" else "f8"
     if case["release_time_pv"]:
         st_p["release_time"] = "time"
         out_p["release_time"] = "f8"
@@ -209,7 +218,8 @@ def build_scenario(case: dict[str, Any]) -> dict[str, Any]:
     run = dict(
         start=case["start"], stop=case["stop"], dt=case["dt"], reversed=case["reversed"], advection="EF",
         release=dict(columns=case["columns"], rows=case["rows"], header=case["header"], continuous=case["continuous"],
-                     freq=case["freq_steps"] * case["dt"]),
+                     freq=case["freq_steps"] * case["dt"],
+                     idle_frequency=(2 * case["dt"] if (not case["continuous"] and case["idx"] % 3 == 1) else 0), continuous_key_false=bool(case["idx"] % 2)),
         state=dict(instance_variables=st_i, particle_variables=st_p, default_values=defaults),
         output=dict(period=case["dt"], instance=out_i, particle=out_p),
     )
@@ -272,6 +282,8 @@ def run_case(case: dict[str, Any], wd: Path) -> dict[str, Any]:
     sit["names_in_config"] = int(not case["header"])
     sit["particle_variable_column"] = int(any(e[2] == "particle" for e in case["extras"]) or case["release_time_pv"])
     sit["release_hook_events"] = len(events)
+    sit["integer_column_beyond_2_to_53"] = int(bool(case.get("bigint")))
+    sit["discrete_release_with_frequency_entry"] = int(not case["continuous"] and case["idx"] % 3 == 1)
     sit["file_with_XY_and_lonlat"] = int(bool(case.get("both")))
     sit["table_with_17_or_more_rows_several_per_time"] = int(len(case["rows"]) >= 17 and bool(case.get("big")))
     sit["release_after_particles_were_removed"] = int(len(set(killed_at.values())) >= 2)
@@ -333,6 +345,9 @@ def run_case(case: dict[str, Any], wd: Path) -> dict[str, Any]:
                     V.append(C.viol(f"pid {pid}: time-typed column {name} = {got} ({files[-1].pvar_units.get(name)!r}), row {e['row']} says {d[name]} = {want_t} s after the reference time"))
                     break
                 continue
+            if typ == "int" and got is not None and int(got) != int(d[name]):  # exact, also beyond 2**53
+                V.append(C.viol(f"pid {pid}: integer column {name} ({kind}) = {int(got)}, row {e['row']} says {int(d[name])}"))
+                break
             if got is None or abs(float(got) - float(d[name])) > 1e-9:
                 V.append(C.viol(f"pid {pid}: extra column {name} ({kind}) = {got}, row {e['row']} says {d[name]}"))
                 break
